@@ -10,7 +10,7 @@ use crate::{
     model::{Namespace, field::resolve_type, node::RustNode},
     reader::{WELL_KNOWN_NAMESPACES, WriteXml},
 };
-use roxmltree::{Document, Node};
+use roxmltree::{Document, Node, NodeId};
 use std::{collections::HashMap, rc::Rc};
 
 pub struct RustDocument {
@@ -23,6 +23,10 @@ pub struct RustDocument {
     pub(crate) soap_ports: Vec<Rc<SoapPort>>,
     pub(crate) soap_bindings: Vec<Rc<SoapBinding>>,
     pub(crate) soap_services: Vec<SoapService>,
+    /// XML nodes whose forward-reference lookup is in progress (guards against cyclic references)
+    resolving: Vec<NodeId>,
+    /// forward references that were already resolved in the current XML document
+    resolved: HashMap<NodeId, Rc<RustNode>>,
 }
 
 impl RustDocument {
@@ -57,6 +61,8 @@ impl RustDocument {
             soap_ports: Vec::new(),
             soap_bindings: Vec::new(),
             soap_services: Vec::new(),
+            resolving: Vec::new(),
+            resolved: HashMap::new(),
         }
     }
 
@@ -148,8 +154,7 @@ impl RustDocument {
             return Some(rust_node.clone());
         }
 
-        let alt_node = try_to_find_node_by_xml_name_in_xml_doc(start_node, xml_name, namespace, self).ok()?;
-        Some(alt_node.into())
+        try_to_find_node_by_xml_name_in_xml_doc(start_node, xml_name, namespace, self).ok()
     }
 
     pub fn find_message_by_xml_name(&self, xml_name: &str, _namespace: Option<&Namespace>) -> Option<&Rc<SoapMessage>> {
@@ -182,7 +187,7 @@ fn try_to_find_node_by_xml_name_in_xml_doc<'n>(
     xml_name: &str,
     _namespace: Option<&Namespace>,
     doc: &mut RustDocument,
-) -> WriterResult<RustNode> {
+) -> WriterResult<Rc<RustNode>> {
     // get to the root of the document from the start node
     let mut start_node = *start_node;
     while let Some(parent) = start_node.parent() {
@@ -199,7 +204,21 @@ fn try_to_find_node_by_xml_name_in_xml_doc<'n>(
                     continue;
                 }
 
-                let rust_node = RustNode::try_from_node(node, doc)?;
+                if let Some(rust_node) = doc.resolved.get(&node.id()) {
+                    return Ok(rust_node.clone());
+                }
+
+                // a node that (indirectly) refers to itself can not be resolved by parsing it again
+                if doc.resolving.contains(&node.id()) {
+                    return Err(WriterError::NodeNotFound(format!("{xml_name} (cyclic reference)")));
+                }
+
+                doc.resolving.push(node.id());
+                let rust_node = RustNode::try_from_node(node, doc);
+                doc.resolving.pop();
+
+                let rust_node = Rc::new(rust_node?);
+                doc.resolved.insert(node.id(), rust_node.clone());
                 return Ok(rust_node);
             }
         }
